@@ -107,7 +107,11 @@ def run(prop, spec, tier, seed, scratch, t0):
     rng = random.Random((seed << 8) ^ hash(prop) % 251)
     rng = random.Random(f"{seed}:{prop}")
     ctx = props.Ctx(prop=prop, rng=rng, thorough=thorough, seed=seed, scratch=scratch, broken=broken)
-    res = spec["run"](ctx)
+    from .streams import EnoughFailures
+    try:
+        res = spec["run"](ctx)
+    except EnoughFailures as e:
+        res = e.result
 
     # 5. verdict
     known = core.load_known_findings()
